@@ -121,6 +121,19 @@ def run(ctx):
                             first_header=A.FirstHeader(has_more_headers=more, is_acknowledged=fl[0], is_priority=fl[1], is_control_message=fl[2], pdu_type=t),
                             registration_request_header=A.RegistrationRequestHeader(event=ev) if more else None,
                             device_identifier=dev, user_identifier=usr, password=pw, is_csbk_ars=csbk))
+    # lengths and characters that make the octets of the CSBK trailer (0x10 0x80) and other header values turn up inside a message
+    # that has no trailer: field lengths 16 and 128, total lengths with a low octet of 0x10 / 0x80, the control character U+0010
+    pool = ["", "\x10", "ab\x10", "q" * 16, "r" * 128, "s" * 127 + "\x10", "t" * 10, "u" * 11, "v" * 12, "w" * 13, "x" * 14, "y" * 15, "z" * 112, "k" * 125]
+    for t in (P.DEVICE_REGISTRATION_REQUEST, P.USER_REGISTRATION_REQUEST):
+        for k in range(120 if ctx.quick else 1500):
+            more = bool(rng.getrandbits(1))
+            dev, usr, pw = rng.choice(pool), rng.choice(pool), rng.choice(pool)
+            fl = [bool(rng.getrandbits(1)) for _ in range(3)] if k % 2 else [False, False, k % 4 == 0]
+            ev = rng.choice(list(A.RegistrationEvent))
+            observe("ars", lambda: A.AutomaticRegistrationService(
+                first_header=A.FirstHeader(has_more_headers=more, is_acknowledged=fl[0], is_priority=fl[1], is_control_message=fl[2], pdu_type=t),
+                registration_request_header=A.RegistrationRequestHeader(event=ev) if more else None,
+                device_identifier=dev, user_identifier=usr, password=pw, is_csbk_ars=k % 5 == 0))
     for t in (P.STATUS_QUERY_REQUEST, P.DEVICE_DEREGISTATION_NOTICE):
         for csbk in (False, True):
             for k in range(8):
